@@ -10,6 +10,12 @@ import PortusModel.Props.C01Decode
 #print axioms Portus.C01.compiled_install_decodes
 #print axioms Portus.C01.install_decodes
 #print axioms Portus.C01.exSrc_decodes
+#print axioms Portus.C01.cexSrc2_inTheorem
+#print axioms Portus.C01.cexSrc2_not_defBeforeUse
+#print axioms Portus.C01.nestedSrc_inTheorem
+#print axioms Portus.C01.nestedSrc_not_stratified
+#print axioms Portus.C01.nestedSrc_run
+#print axioms Portus.C01.hazard_discrepancy
 #print axioms Portus.C01.compiled_run_correct
 #print axioms Portus.C01.check_accepts_compiled
 #print axioms Portus.C01.exSrc_inTheorem
